@@ -72,7 +72,9 @@ func (rpcScn) Name() string     { return "rpc" }
 func (rpcScn) Property() string { return "C04" }
 
 var rpcCodes = []string{"ok", "ok", "ok", "ok", "error", "not_found", "forbidden", "unavailable", "timeout", "cancelled", "closed", "end",
-	"external_error", "rpc_error", "app_custom_17", "ünïcode_cøde", "", "a_rather_long_application_defined_status_code_0123456789_0123456789", "parse_error", "wait", "rollback"}
+	"external_error", "rpc_error", "app_custom_17", "ünïcode_cøde", "", "a_rather_long_application_defined_status_code_0123456789_0123456789", "parse_error", "wait", "rollback",
+	// every code the status package defines goes through the client's code table at least now and then
+	"test", "unauthorized", "redirect", "unsupported", "checksum_error", "concurrency_error", "skip_response_x"}
 var rpcMsgs = []string{"", "x", "something failed", "ошибка: не найдено", strings.Repeat("long message ", 40), "line1\nline2\ttab \"quoted\""}
 
 func genRpcPlan(g *simrt.Rng, tier string) *RpcPlan {
